@@ -288,6 +288,35 @@ func vRunCase4(t *testing.T, c vCase) (msg string) {
 		if !bytes.Equal(snapM, msg[:cap(msg)]) || !bytes.Equal(snapD, dst[:cap(dst)]) {
 			return c.Op + " with buffer layout " + itoa(c.N) + " modified the caller's buffers"
 		}
+	case "h2c-many":
+		// N seeded messages through both suites: field elements u with leading zero bytes (1 in 128 inputs) and every other
+		// data-dependent corner of hash_to_field / the map must give the RFC point
+		for _, ro := range []bool{true, false} {
+			dst := []byte("QUUX-V01-CS02-with-secp256k1_XMD:SHA-256_SSWU_RO_")
+			if !ro {
+				dst = []byte("QUUX-V01-CS02-with-secp256k1_XMD:SHA-256_SSWU_NU_")
+			}
+			for i := 0; i < c.N; i++ {
+				m := []byte("message-" + itoa(i))
+				want := vSec1(vHashToCurve(m, dst, ro), true)
+				var got []byte
+				func() {
+					defer func() {
+						if r := recover(); r != nil {
+							got = []byte("panic")
+						}
+					}()
+					if ro {
+						got = HashToGroup(m, dst).Encode()
+					} else {
+						got = EncodeToGroup(m, dst).Encode()
+					}
+				}()
+				if !bytes.Equal(got, want) {
+					return "hash/encode_to_curve(\"message-" + itoa(i) + "\", ro=" + itoa(b2i(ro)) + ") = " + hex.EncodeToString(got) + ", RFC 9380 gives " + hex.EncodeToString(want)
+				}
+			}
+		}
 	case "h2s-many":
 		// N seeded messages: results whose leading bytes are zero (1 in 256) must be handled like any other
 		dst := []byte("QUUX-V01-CS02-with-secp256k1_XMD:SHA-256_SSWU_RO_")
